@@ -7,6 +7,7 @@ from typing import Union
 
 from liquid import Mode
 from liquid.exceptions import FilterArgumentError
+from liquid.exceptions import FilterValueError
 from liquid.exceptions import LiquidSyntaxError
 from liquid.exceptions import LiquidTypeError
 from liquid.exceptions import UnknownFilterError
@@ -271,6 +272,9 @@ class Filter:
             return func(left, *positional_args, **keyword_args)
         except TypeError as err:
             raise LiquidTypeError(f"{self.name}: {err}", token=self.token) from err
+        except ValueError as err:
+            # For example, an integer beyond the int/str conversion limit.
+            raise FilterValueError(f"{self.name}: {err}", token=self.token) from err
         except (LiquidTypeError, FilterArgumentError) as err:
             err.token = self.token
             raise err
@@ -285,6 +289,9 @@ class Filter:
             return func(left, *positional_args, **keyword_args)
         except TypeError as err:
             raise LiquidTypeError(f"{self.name}: {err}", token=self.token) from err
+        except ValueError as err:
+            # For example, an integer beyond the int/str conversion limit.
+            raise FilterValueError(f"{self.name}: {err}", token=self.token) from err
         except (LiquidTypeError, FilterArgumentError) as err:
             err.token = self.token
             raise err
